@@ -263,12 +263,15 @@ def _struct_job(job):
     name, rows, ff, conv, *rest = job
     wd = os.path.join(core.VERIF, ".work", f"c10s-{os.getpid()}")
     os.makedirs(wd, exist_ok=True)
-    open(os.path.join(wd, "s.pdb"), "w").write(pdb_text_of(rows))
-    open(os.path.join(wd, "s.cif"), "w").write(cif_text(rows, omit=rest[0] if rest else ()))
+    # the encoding is recognised by the file suffix in any case (s.cif, S.CIF, s.Cif)
+    k = sum(map(ord, name)) % 3
+    fn = {"pdb": ("s.pdb", "S.PDB", "s.pdb")[k], "cif": ("s.cif", "S.CIF", "s.Cif")[k]}
+    open(os.path.join(wd, fn["pdb"]), "w").write(pdb_text_of(rows))
+    open(os.path.join(wd, fn["cif"]), "w").write(cif_text(rows, omit=rest[0] if rest else ()))
     res = {}
     for enc in ("pdb", "cif"):
         with _Shim(conv):
-            r = runner.run([f"--ff={ff}", os.path.join(wd, "s." + enc), os.path.join(wd, "o.pqr")])
+            r = runner.run([f"--ff={ff}", os.path.join(wd, fn[enc]), os.path.join(wd, "o.pqr")])
         atoms = []
         if r["ok"]:
             for a in parse_pqr(open(os.path.join(wd, "o.pqr")).read()):
